@@ -29,7 +29,7 @@ ASSUMPTIONS = [
     'attachments are interleaved with nothing else from the same transport',
     'event names are ordinary (not connect/disconnect/*), see C13 for those',
 ]
-BUDGET = {'quick': 1600, 'thorough': 64000}
+BUDGET = {'quick': 3200, 'thorough': 64000}
 FLOOR = {'quick': 150, 'thorough': 5000}
 
 NSS = ['/', '/x', '/c', '/none']   # '/none' is served but has no handlers
